@@ -340,10 +340,11 @@ def handle (o : Op) : Option String :=
       if e1.length = 0 ∨ e2.length = 0 then return "err IndexError"   -- freq_edges[0]
       if let some p := edgesProblem e2 then return p
       if let some p := edgesProblem e1 then return p
-      if s3.length < 3 ∨ s3[2]! ≠ s2[2]! then return "err ValueError"  -- data / coordinate length mismatch
       let T := s1[0]!
       let M := s1[1]!
       let K := s2[2]!
+      -- coo_matrix: data (inam2.reshape(-1)) and coordinates (T*M*K) must have the same length
+      if a2.length ≠ T * M * K then return "err ValueError"
       let F1 := chunk M T f1
       let F2 := (chunk (M * K) T f2).map (chunk K M)
       let A2 := (chunk (M * K) T a2).map (chunk K M)
@@ -355,7 +356,7 @@ def handle (o : Op) : Option String :=
       else if squash = "sum" then
         return s!"ok na={na} nc={nc} | {fmtMat (holoSum e1 e2 energy rows)}"
       else
-        if T = 0 then return "bad-op"
+        if T = 0 then return "err ZeroDivisionError"     -- sparse mean over an empty axis
         return s!"ok na={na} nc={nc} | {fmtMat (holoMean e1 e2 energy rows)}"
   | "CENTRES" => some <| Id.run do
       let some e := o.vec? 0 | return "bad-op"
